@@ -137,7 +137,7 @@ def _guard(ctx: Ctx, rule: str, inst: str, fi, construct: str, thunk, expect=Non
         ok, detail = False, f"division by zero: {e}"
     ctx.ob(rule, inst, ok, {"detail": str(detail)[:200]} if detail is not None else None)
     if not ok:
-        ctx.report(rule, fi, construct, f"{msg or ctx.rules.get(rule, rule)} — fails: {str(detail)[:240]}")
+        ctx.report(rule, fi, construct, f"{msg + ': ' if msg else ''}{str(detail)[:260]}")
     return ok
 
 
